@@ -224,12 +224,21 @@ def cases(tier):
         for first in range(n_alpha):
             for second in range(n_alpha + 1):
                 cs.append(dict(id="len4-%02d-%02d" % (first, second), length=4, forced=[first, second]))
+        # extended alphabet (nested sums, gradient(), a twin Point object): all histories of length 2, and the histories of
+        # length 3 that start with one of the pairs below (a full length-3 sweep is ~50^3 histories with symbolic-weight
+        # forks on each: measured at more than two CPU-hours per first operation, outside the tier's budget)
         n_ext = 3 * 5 * 3 + 5
         for first in range(n_ext):
-            cs.append(dict(id="ext3-first%02d" % first, length=3, forced=[first], nested=True, twin=True, extended=True))
+            cs.append(dict(id="ext2-first%02d" % first, length=2, forced=[first], nested=True, twin=True, extended=True))
+        for first in range(0, n_ext, 7):
+            for second in range(1, n_ext + 1, 9):
+                cs.append(dict(id="ext3-%02d-%02d" % (first, second), length=3, forced=[first, second], nested=True, twin=True,
+                               extended=True))
         n_nest = 2 * 5 * 2 + 5
         for first in range(n_nest):
-            cs.append(dict(id="sub3-first%02d" % first, length=3, forced=[first], nested=True, nested_variant=1))
+            for second in range(0, n_nest + 1, 5):
+                cs.append(dict(id="sub3-%02d-%02d" % (first, second), length=3, forced=[first, second], nested=True,
+                               nested_variant=1))
     return cs
 
 
@@ -241,6 +250,7 @@ def main(tier, only=None):
         "C07", tier, "vf.props.c07", cs, opts=dict(mode='reexec', max_paths=3000000, assert_timeout_ms=20000),
         assumptions=["two leaf functions (one differentiable, one not); sums with symbolic weights",
                      "'same point' = same decomposition over leaf points (as the library defines it)"],
-        bounds=dict(history_length=3 if tier == 'quick' else "4 (base alphabet), 3 (extended alphabet with nested sums, "
-                                                             "gradient(), a twin Point object)",
+        bounds=dict(history_length=3 if tier == 'quick' else "4 (base alphabet); extended alphabet (nested sums, gradient(), a twin "
+                                                             "Point object): 2, and 3 for a fixed grid of first-two-operation "
+                                                             "pairs",
                     leaf_functions=2, outside="more than 2 leaf functions, longer histories, fixed_point / steps"))
